@@ -34,6 +34,10 @@ impl<R> Crc32Reader<R> {
     pub fn into_inner(self) -> R {
         self.inner
     }
+
+    pub(crate) fn get_mut(&mut self) -> &mut R {
+        &mut self.inner
+    }
 }
 
 impl<R: Read> Read for Crc32Reader<R> {
